@@ -835,29 +835,17 @@ func ruleVLiteral(c *engine.Context) *report.Rule {
 				notLit := map[ssa.Value]bool{}
 				isLit := map[ssa.Value]bool{}
 				for _, ec := range fp.conds {
-					ex, ok := ec.cond.(*ssa.Extract)
-					if !ok || ex.Index != 1 {
+					cond, neg := unwrapNot(ec.cond)
+					b0, at, blk, ok := fieldTypeTest(cond)
+					if !ok {
 						continue
 					}
-					ta, ok := ex.Tuple.(*ssa.TypeAssert)
-					if !ok || !ta.CommaOk {
-						continue
-					}
-					pt, ok := ta.AssertedType.(*types.Pointer)
+					pt, ok := at.(*types.Pointer)
 					if !ok || !types.Identical(pt.Elem(), litT) {
 						continue
 					}
-					// ta.X = load(FieldAddr(operand, paramField))
-					ld, ok := ta.X.(*ssa.UnOp)
-					if !ok {
-						continue
-					}
-					fa, ok := ld.X.(*ssa.FieldAddr)
-					if !ok {
-						continue
-					}
-					base := fp.resolveAt(fa.X, ta.Block())
-					if !ec.taken {
+					base := fp.resolveAt(b0, blk)
+					if ec.taken == neg {
 						notLit[base] = true
 					} else {
 						isLit[base] = true
@@ -1094,15 +1082,12 @@ func ruleVSingleRight(c *engine.Context) *report.Rule {
 			// (a literal, a `$`-rooted operand) is member-independent whatever its flag says
 			indep := memberIndependentTypes(p)
 			for _, ec := range fp.conds {
-				ex, ok := ec.cond.(*ssa.Extract)
-				if !ok || ex.Index != 1 || !ec.taken {
+				cond, neg := unwrapNot(ec.cond)
+				b0, at, blk, ok := fieldTypeTest(cond)
+				if !ok || ec.taken == neg {
 					continue
 				}
-				ta, ok := ex.Tuple.(*ssa.TypeAssert)
-				if !ok || !ta.CommaOk {
-					continue
-				}
-				pt, ok := ta.AssertedType.(*types.Pointer)
+				pt, ok := at.(*types.Pointer)
 				if !ok {
 					continue
 				}
@@ -1110,12 +1095,8 @@ func ruleVSingleRight(c *engine.Context) *report.Rule {
 				if !ok || !indep[nt] {
 					continue
 				}
-				if ld, ok := ta.X.(*ssa.UnOp); ok {
-					if fa, ok := ld.X.(*ssa.FieldAddr); ok {
-						t := true
-						flag[fp.resolveAt(fa.X, ta.Block())] = &t
-					}
-				}
+				t := true
+				flag[fp.resolveAt(b0, blk)] = &t
 			}
 			// violation iff we cannot exclude (l.flag == true && r.flag == false)
 			lf, rf := flag[l], flag[rr]
